@@ -498,6 +498,9 @@ type world struct {
 	id         string
 	hasEncrypt bool
 	stop       bool // an open known finding was hit: end the case (successfully)
+	// preloaded[store name][ref]: blobs the harness itself put into a never-written lower layer (overlay);
+	// they stay there by design also after being removed through the overlay
+	preloaded map[string]map[blob.Ref]bool
 }
 
 func (w *world) dump() string {
@@ -913,8 +916,23 @@ func (w *world) run(rq *request) {
 	after := w.rawState()
 	if !anyNew {
 		for _, name := range w.storeNames() {
-			if r, same := sameRaw(before[name], after[name]); !same {
+			for r, d := range after[name] {
+				od, had := before[name][r]
+				if had && bytes.Equal(od, d) {
+					continue
+				}
+				// a store layered over a never-written lower layer (overlay) stores an accepted duplicate of a
+				// lower-layer blob in its upper layer: adding exactly the accepted content of a present ref is
+				// not a trace of a rejected upload
+				if e := w.model.Get(r); !had && w.b.Tree.Type == "overlay" && e.State == vmodel.Present && bytes.Equal(d, e.Data) {
+					continue
+				}
 				w.violated("", "no new blob was accepted by this %s request, yet the wrapped store %q changed at %s", rq.Path, name, r)
+			}
+			for r := range before[name] {
+				if _, ok := after[name][r]; !ok {
+					w.violated("", "no new blob was accepted by this %s request, yet the wrapped store %q lost %s", rq.Path, name, r)
+				}
 			}
 		}
 	}
@@ -964,6 +982,9 @@ func (w *world) checkRawNames(state map[string]map[blob.Ref][]byte) {
 				continue
 			}
 			e := w.model.Get(r)
+			if w.preloaded[name][r] && bytes.Equal(d, e.Data) {
+				continue
+			}
 			if e.State == vmodel.Absent {
 				w.violated("", "the wrapped store %q holds %d bytes under %s, which was never accepted", name, len(d), r)
 			}
@@ -1058,7 +1079,7 @@ func (w *world) final() {
 	w.checkRawNames(w.rawState())
 }
 
-var rootTypes = []string{"memory", "localdisk", "diskpacked", "blobpacked", "encrypt", "replica", "verif", "namespace"}
+var rootTypes = []string{"memory", "localdisk", "diskpacked", "blobpacked", "encrypt", "replica", "verif", "namespace", "overlay"}
 
 func rootOf(desc string) string {
 	if i := strings.IndexAny(desc, "[("); i >= 0 {
@@ -1075,6 +1096,37 @@ func runCase(t *rapid.T) {
 	evid.R.Label("backend/" + tree.Type)
 	selfVerifying := tree.Type == "memory" || tree.Type == "encrypt"
 
+	// overlay: some pool blobs sit in the (never written) lower layer, and some of those were removed
+	// through the overlay before the offers start: a removed blob is absent, and a REJECTED offer under its
+	// ref must leave it absent (a rejected upload leaves no trace)
+	for _, leaf := range w.b.Preload {
+		lname := fmt.Sprintf("n%d", leaf.ID())
+		if w.preloaded == nil {
+			w.preloaded = map[string]map[blob.Ref]bool{}
+		}
+		if w.preloaded[lname] == nil {
+			w.preloaded[lname] = map[blob.Ref]bool{}
+		}
+		for i, p := range pool {
+			w.preloaded[lname][p.Ref] = true // (only matters for the refs really put there below)
+			switch rapid.IntRange(0, 3).Draw(t, fmt.Sprintf("lower%d", i)) {
+			case 0: // in the lower layer
+				if err := w.b.PreloadBlob(leaf, p.Ref, p.Data); err != nil {
+					t.Fatalf("C02 harness: preload: %v", err)
+				}
+				w.model.SetPresent(p.Ref, p.Data)
+			case 1: // in the lower layer, then removed through the overlay
+				if err := w.b.PreloadBlob(leaf, p.Ref, p.Data); err != nil {
+					t.Fatalf("C02 harness: preload: %v", err)
+				}
+				if err := w.sto.RemoveBlobs(ctx, []blob.Ref{p.Ref}); err != nil {
+					t.Fatalf("C02 harness: removing a lower-layer blob through the overlay: %v", err)
+				}
+				w.model.SetAbsent(p.Ref)
+				evid.R.Label("overlay/lower-blob-removed-before-offers")
+			}
+		}
+	}
 	// blobs stored beforehand (through the verified entry point; must be accepted)
 	for i, p := range pool {
 		if rapid.IntRange(0, 2).Draw(t, fmt.Sprintf("prestore%d", i)) != 0 {
